@@ -663,4 +663,41 @@ theorem C09_merge_allIdentity (σ τ ρ : Subst) (h : merge σ τ = some ρ) :
     · exact h1 p hp
     · exact h2 p hp
 
+/-- the default rule of the matcher (children pairwise, merged left to right): a `yes` answer is the LEAST substitution that
+    extends the accumulator and every child's own answer — every child was matched, each answer is contained in the node's,
+    and nothing else is.  Unconditional (all trees, no well-formedness), so this part of "exact first-order matching" holds
+    also where `C09_sound_wf`'s side conditions do not. -/
+theorem C09_children_answer_is_least : ∀ (as bs : List T) (acc : Subst) (fl : Bool) (ρ : Subst) (l : Bool),
+    supL as bs acc fl = .yes ρ l →
+    as.length = bs.length ∧ Ext acc ρ ∧
+    (∀ p ∈ as.zip bs, ∃ σ f, supS p.1 (stripTop p.2) = .yes σ f ∧ Ext σ ρ) ∧
+    (∀ ρ', Ext acc ρ' → (∀ p ∈ as.zip bs, ∀ σ f, supS p.1 (stripTop p.2) = .yes σ f → Ext σ ρ') → Ext ρ ρ')
+  | [], [], acc, fl, ρ, l, h => by
+      rw [supL] at h; cases h
+      exact ⟨rfl, Ext.refl _, by simp, fun ρ' h1 _ => h1⟩
+  | [], _ :: _, _, _, _, _, h => by rw [supL_nil_cons] at h; cases h
+  | _ :: _, [], _, _, _, _, h => by rw [supL_cons_nil] at h; cases h
+  | a :: as, b :: bs, acc, fl, ρ, l, h => by
+      rw [supL] at h
+      split at h
+      · cases h
+      · cases h
+      · next σ1 f h1 =>
+        split at h
+        · cases h
+        · next acc' hm =>
+          obtain ⟨hlen, hext, hkids, hleast⟩ := C09_children_answer_is_least as bs acc' (fl || f) ρ l h
+          obtain ⟨m1, m2, m3⟩ := C09_merge_is_least_upper_bound acc σ1 acc' hm
+          refine ⟨by simp [hlen], Ext.trans m1 hext, ?_, ?_⟩
+          · intro p hp
+            simp only [List.zip_cons_cons, List.mem_cons] at hp
+            rcases hp with hp | hp
+            · subst hp; exact ⟨σ1, f, h1, Ext.trans m2 hext⟩
+            · exact hkids p hp
+          · intro ρ' hacc hall
+            apply hleast ρ'
+            · exact m3 ρ' hacc (hall (a, b) (by simp) σ1 f h1)
+            · intro p hp σ f' hs
+              exact hall p (by simp only [List.zip_cons_cons, List.mem_cons]; exact Or.inr hp) σ f' hs
+
 end DI
